@@ -5,12 +5,13 @@ _m(
     "exploration",
     "Part 1 (pure Python).  BOUNDED-EXHAUSTIVE (this, and only this, is what coverage.exhaustive=true refers to): every "
     "SimpleBatcher configuration with n in 1..40, batch_size in {1..n+2, None}, val_ratio in {0} U {k/n, k=1..n-1} U "
-    "{0.05, 0.10, .., 0.95}, val_mode in {grid, random}, shuffle in {False, True}, seed in {0, 1}, rng passed as int or as "
-    "np.random.default_rng(seed) (679 360 configurations), and every subdivide_batches/generate_batches call with num_items "
-    "in 1..64, num_batches in 1..num_items or max_batch in 1..num_items+2, start_index in {0, 7} (16 896 configurations); "
-    "configuration i of the fixed enumeration order is judged by worker i mod nworkers.  Plus Hypothesis-drawn larger "
+    "{0.05, 0.10, .., 0.95}, val_mode in {grid, random}, shuffle in {False, True}, seed in {0, 1}, rng passed as "
+    "np.random.default_rng(seed) the way reconstruct passes it (317 504 configurations), and every "
+    "subdivide_batches/generate_batches call with num_items in 1..64, num_batches in 1..num_items or max_batch in "
+    "1..num_items+2, start_index in {0, 7} (8 576 configurations); configuration i of the fixed enumeration order is "
+    "judged by worker i mod nworkers, so the union over the workers is the whole space.  Plus Hypothesis-drawn larger "
     "cases: n <= 5000, any batch size in 1..n+2 (biased to divisors, n-1, n, n+1, small sizes) or None, any float "
-    "val_ratio in [0, 1) (biased to k/n, 1/k, 1-1/k), any 31-bit seed; num_items <= 100 000.  Part 2 (Hypothesis, tiny "
+    "val_ratio in [0, 1) (biased to k/n, 1/k, 1-1/k), any 31-bit seed passed as int or as Generator; num_items <= 100 000.  Part 2 (Hypothesis, tiny "
     "Ptychography problems built through the public constructors from random positive intensities): roi 3..7 per axis, "
     "scan grid 2..5 per axis (J = 4..25 patterns), 1-2 slices, 1-2 probe modes, complex / pure_phase / potential object, "
     "padding 0..3, float32 or float64 configuration, the five loss types, val_ratio 0 or in {0.1 .. 0.75} with grid or "
